@@ -11,7 +11,35 @@ EXTENDS LockEngine
 
 Pick(S) == RandomElement(S)
 
+\* ---- guided draws: requests by CURRENT HOLDERS whose terms differ from request to request ----------------------
+\* The plain classes draw key, LockId, Count and Rcount independently, so "the same LockId comes back with another
+\* Count / Rcount while other holders are present" is a rare coincidence.  The classes below draw the LockId among the
+\* holders of a held key and the terms afresh (seed classes C01e: an update that changes only Count / Rcount, on
+\* unlimited and timed holds, by the oldest holder, followed by newcomers whose admission depends on the new Count;
+\* C02e: re-locks and updates that change Count / Rcount between the requests of one LockId while other LockIds hold
+\* the key, followed by unlocks and re-locks of those others).
+HeldKeys == {k \in Keys : ks[k].H # <<>>}
+HolderLids(k) == {ks[k].H[i].lid : i \in 1..Len(ks[k].H)}
+\* the oldest holder half of the time, otherwise anyone
+ReHolder(k) == IF Pick(1..2) = 1 THEN ks[k].H[1].lid ELSE Pick(HolderLids(k))
+\* a holder other than the oldest when there is one
+OtherHolder(k) == IF Len(ks[k].H) > 1 THEN Pick(HolderLids(k) \ {ks[k].H[1].lid}) ELSE ks[k].H[1].lid
+ReFlags == (LockFlags \cap {"update", "updunl", "updkeep", "showupdate", "showupdunl", "unl"}) \cup {""}
+NewFlags == (LockFlags \cap {"unl", "conc"}) \cup {""}
+Strangers(k) == IF Lids \ HolderLids(k) = {} THEN Lids ELSE Lids \ HolderLids(k)
+
+SimRelock(k) == LockReq(k, ReHolder(k), Pick(Counts), Pick(Rcounts), Pick(Timeouts), Pick(Expireds), Pick(ReFlags))
+SimNewcomer(k) == LockReq(k, Pick(Strangers(k)), Pick(Counts), Pick(Rcounts), Pick(Timeouts), Pick(Expireds),
+                          IF Pick(1..10) <= 5 THEN "" ELSE Pick(NewFlags))
+SimHolderUnlock(k) == UnlockReq(k, OtherHolder(k), Pick(Rcounts), "")
+
 SimStep ==
+    \/ /\ turn \in {"relock", "relock2", "relock3"} /\ HeldKeys # {}
+       /\ SimRelock(Pick(HeldKeys))
+    \/ /\ turn \in {"newcomer", "newcomer2"}
+       /\ SimNewcomer(IF HeldKeys # {} THEN Pick(HeldKeys) ELSE Pick(Keys))
+    \/ /\ turn = "hunlock" /\ HeldKeys # {}
+       /\ SimHolderUnlock(Pick(HeldKeys))
     \/ /\ turn \in {"lock", "lock2", "lock3"}
        /\ LockReq(Pick(Keys), Pick(Lids), Pick(Counts), Pick(Rcounts), Pick(Timeouts), Pick(Expireds),
                   IF Pick(1..10) <= 6 THEN "" ELSE Pick(LockFlags \cup {""}))
